@@ -33,7 +33,8 @@ def run(rep):
     for b in range(n):
         T, A = int(rng.integers(2, 25)), int(rng.integers(1, 5))
         w = md.make_walk(rng, T, A)
-        traj, G = md.build(rng, fams[b % len(fams)], ['chol', 'pmg', 'rot'][b % 3], w, ['Li'] * A, dt_fs=int(rng.integers(1, 4)))
+        traj, G = md.build(rng, fams[b % len(fams)], ['chol', 'pmg', 'rot'][b % 3], w, ['Li'] * A, dt_fs=int(rng.integers(1, 4)),
+                           as_displacements=(b % 5 == 4))
         recs.append({'b': b, 'G': G, 'w': w.tolist(), 'm': [1] * A, 'speeds': [], 'parts': [], 'want': {'msd': True}})
         trajs.append((traj, w))
     # every third case: the trajectory is given to the code in two pieces; the first piece is analysed (and judged), then
